@@ -8,3 +8,5 @@ CONSTANTS
  MaxOps = 0
  Styles = {"write", "nowrite", "copy"}
  EmptyData = "d0"
+ CopyOn = TRUE
+ CopyMiss <- SimMiss
